@@ -44,9 +44,79 @@ func (g *Gen) ctxEntry() *Ctx {
 func (g *Gen) ctxHere() *Ctx {
 	pos := g.curPos
 	st := g.st
-	return &Ctx{st: st, old: g.entry, vars: map[string]Val{}, oldV: g.params, pkg: g.pkg(), scope: func(name string) (Val, bool) {
+	vars := map[string]Val{}
+	for k, v := range g.ghostVars() {
+		vars[k] = v
+	}
+	return &Ctx{st: st, old: g.entry, vars: vars, oldV: g.params, pkg: g.pkg(), scope: func(name string) (Val, bool) {
 		return g.localByName(st, name, pos)
 	}}
+}
+
+// ---- function-level ghost variables ----
+// A ghost is one SMT constant per component; `ghost x = e` fixes its value on paths where no re-assignment was
+// executed, `after call N: ghost x = e` fixes it on the paths through that call (single assignment outside loops).
+type fnGhost struct {
+	val      Val
+	def      Val    // value at entry
+	assigned []Term // reach conditions of the re-assignments seen so far
+}
+
+func (g *Gen) ghostVars() map[string]Val {
+	if g.con == nil || len(g.con.Ghost) == 0 {
+		return nil
+	}
+	if g.fnGhosts == nil {
+		g.fnGhosts = map[string]*fnGhost{}
+		cx := &Ctx{st: g.entry, old: g.entry, vars: map[string]Val{}, oldV: g.params, pkg: g.pkg()}
+		for k, v := range g.params {
+			cx.vars[k] = v
+		}
+		for _, gd := range g.con.Ghost {
+			def := g.evalSpec(gd.Expr, cx)
+			if def.T == nil {
+				def = Val{T: types.Typ[types.Int], C: []Term{g.unifyTo(def.C[0], g.intRep())}}
+			}
+			v := Val{T: def.T}
+			for _, c := range def.C {
+				v.C = append(v.C, g.fresh("gh_"+gd.Name, c.Sort))
+			}
+			g.fnGhosts[gd.Name] = &fnGhost{val: v, def: def}
+		}
+	}
+	out := map[string]Val{}
+	for k, gh := range g.fnGhosts {
+		out[k] = gh.val
+	}
+	return out
+}
+
+func (g *Gen) assignGhost(name string, v Val) {
+	g.ghostVars()
+	gh := g.fnGhosts[name]
+	if gh == nil {
+		oos("ghost %s is not declared (ghost %s = <entry value>)", name, name)
+	}
+	if len(v.C) != len(gh.val.C) {
+		oos("ghost %s: shape mismatch", name)
+	}
+	for i := range v.C {
+		g.assumeReach(eq(gh.val.C[i], g.unifyTo(v.C[i], gh.val.C[i].Sort)))
+	}
+	gh.assigned = append(gh.assigned, g.reach)
+}
+
+// ghostDefaults: on paths that executed no re-assignment the ghost has its entry value (asserted at returns)
+func (g *Gen) ghostDefaults() {
+	for _, gh := range g.fnGhosts {
+		none := tBool(true)
+		if len(gh.assigned) > 0 {
+			none = not(or(gh.assigned...))
+		}
+		for i := range gh.val.C {
+			g.assumeReach(implies(none, eq(gh.val.C[i], gh.def.C[i])))
+		}
+	}
 }
 
 func (g *Gen) ctxReturn(res []Val) *Ctx {
@@ -64,6 +134,10 @@ func (g *Gen) ctxReturn(res []Val) *Ctx {
 			vars[sig.Results().At(i).Name()] = r
 		}
 	}
+	for k, v := range g.ghostVars() {
+		vars[k] = v
+	}
+	g.ghostDefaults()
 	return &Ctx{st: g.st, old: g.entry, vars: vars, oldV: g.params, pkg: g.pkg()}
 }
 
@@ -970,6 +1044,9 @@ func (g *Gen) specCall(e *E, cx *Ctx) Val {
 	case "fresh": // fresh(p): p was allocated during the call (not in the old state)
 		x := arg(0)
 		return Val{T: types.Typ[types.Bool], C: []Term{{app(">=", x.C[0].S, cx.old.alloc.S), SBool}}}
+	case "allocated": // allocated(p): the object p refers to exists in the current state (so a later allocation differs from it)
+		x := arg(0)
+		return Val{T: types.Typ[types.Bool], C: []Term{{app("<", x.C[0].S, cx.st.alloc.S), SBool}}}
 	case "sameslice":
 		a, b := arg(0), arg(1)
 		var ps []Term
